@@ -81,6 +81,11 @@ CLAIMED = {
    note='Trusted: Coq kernel + vm_compute; tools/gen_tables.py and the units hook (the hook_needed accessor of the property); deterministic fake exchange rates for currency units.',
    technique='kernel computation over a translator-generated table (exhaustive) + general lookup lemmas + differential correspondence',
    ref='DESIGN.md §8 C11, notes/C11.md'),
+ 'C05': dict(
+   text='15 theorems, no axioms (coq/Properties/C05.v). For ALL values and unit lists: the base-unit exponent map of a unit expression is the sum of exponent x base decomposition with cancelled entries removed and distinct keys (C05_hashmap_is_sum, _keys_distinct); mul/div/pow combine dimension exponents additively (C05_mul_dim, _div_dim, _pow_dim); add/sub/convert succeed only for equal dimensions (after renaming celsius/fahrenheit to kelvin by MERGING exponents -- fix 1210896, found here: the old insert overwrote an existing kelvin exponent; old code refuted with witness (1 celsius kelvin) + (1 kelvin)) or an exact zero, otherwise the Incompatible error (C05_add_needs_same_dim, _add_incompatible_is_error, _convert_needs_same_dim); functions needing pure numbers reject dimensioned arguments (C05_unitless_required); and for whole expression trees over any resolver: a result has exactly the dimension physics assigns (independent typing HasDim from base decompositions) and an ill-dimensioned tree is an error (C05_sound, C05_ill_dimensioned_is_error, full strength). Finite: dimensions of all table names by kernel computation over the regenerated table. Tie: L1 evaluate_to_value hook and L2 evaluate on random unit-expression trees (depth <= 5) over the whole table: numeric result vs incompatible error vs the physics typing; hash-order-sensitive probes repeated.',
+   note='Trusted: Coq kernel + vm_compute; translator and units hook; exponents are rationals in the model (complex/irrational exponents outside it, skipped and counted).',
+   technique='Coq proof over unit-expression trees against an independent dimension typing + differential correspondence',
+   ref='DESIGN.md §8 C05, notes/C05.md'),
  'C06': dict(
    text='Partial by nature. Proved (coq/Properties/C06.v): panic-freedom of the modelled functions reachable from evaluate/preview/inline (JSON escaper and inline JSON for all Unicode text, superscript-exponent accumulation for digit strings of any length in checked and unchecked builds, the i^y selector); the other areas add their own no-panic theorems in their property files. Observed, not proved: everything else, by crash probes on the default build (feature off) in debug (overflow checks) and release profiles over 48 context configurations: suite+manual corpus read from /repo, mutations, token soup, every typed prefix, bounded nesting ramps. Native stack exhaustion is reachable (two open known findings).',
    note='Trusted: Coq kernel; extraction+driver; harness_plain; 8 MiB stack / 4 GiB address-space limits of the probe workers. Hangs and >=128 MiB allocation failures are counted as resource exhaustion (C07), not crashes. Models tied by correspondence (superscripts vs evaluate).',
